@@ -341,7 +341,14 @@ func c01Gen(t *rapid.T) c01Case {
 	for _, r := range shapeRings(&s) {
 		n += len(r)
 	}
-	return c01Case{S: s, Pts: genQueryPoints(t, &s, rapid.IntRange(1, 12).Draw(t, "nq")), Enc: genEnc(t, n)}
+	c := c01Case{S: s, Pts: genQueryPoints(t, &s, rapid.IntRange(1, 12).Draw(t, "nq")), Enc: genEnc(t, n)}
+	if f := genFarAway(t, c.Enc.Scale); f != nil {
+		c.S = mapShape(c.S, f)
+		for i := range c.Pts {
+			c.Pts[i] = f(c.Pts[i])
+		}
+	}
+	return c
 }
 
 // tuples enumerates all sequences of the given length over lat.
